@@ -90,7 +90,8 @@ class Catalogue:
                     params = [q for q in func.params if q != "self"]
                     for q in params:
                         binds[q] = ("param", q)
-                    paths = eng.entry_paths(func, binds) if outer is None else self._closure_paths(func, outer)
+                    recv = getattr(self, "_receivers", {}).get(key, SELF)
+                    paths = eng.entry_paths(func, binds, selfterm=recv) if outer is None else self._closure_paths(func, outer)
                     ne = Entry("TIMER", func.qual, func, paths, self.cls)
                     ne.armed_by = e
                     self.entries.append(ne)
@@ -99,6 +100,11 @@ class Catalogue:
     def _target(self, tgt):
         if isinstance(tgt, tuple):
             if tgt[0] == "bm" and tgt[1] == SELF:
+                return tgt[2].qual, tgt[2], None
+            if tgt[0] == "bm" and isinstance(tgt[1], tuple) and tgt[1][:1] == ("new",) and tgt[1] in self.eng.init_heap.values():
+                # a method of one of the objects the constructor made (a state object): it runs with that object as self
+                self._receivers = getattr(self, "_receivers", {})
+                self._receivers[tgt[2].qual] = tgt[1]
                 return tgt[2].qual, tgt[2], None
             if tgt[0] == "closure":
                 env, selfterm, fi = self.eng._closure_env[tgt[2]]
